@@ -695,6 +695,125 @@ func scriptBinding(s *source, rel, name string) []string {
 	return []string{name + " = NewScript(" + srcVar + ")", "embed " + file}
 }
 
+// ---------------------------------------------------------------------------------------------------------
+// round 5: forwarded argument lists of the delegating entry points, and the arithmetic of NewTokenLimiter.
+
+// c03Forward: a function whose body is ONE `return <recv>.<callee>(args…)`: emits the parameter names of the
+// function and the argument expressions of the call, both in order (TieSem interprets them for all actual values).
+func (e *emitter) c03Forward(s *source, rel, goName, callee, lean string) {
+	fd := s.findFunc(rel, goName)
+	var params, args []string
+	ok := false
+	if fd != nil && fd.Body != nil && len(fd.Body.List) == 1 {
+		if ret, isRet := fd.Body.List[0].(*ast.ReturnStmt); isRet && len(ret.Results) == 1 {
+			if call, isCall := ret.Results[0].(*ast.CallExpr); isCall {
+				if sel, isSel := call.Fun.(*ast.SelectorExpr); isSel && sel.Sel.Name == callee {
+					if id, isId := sel.X.(*ast.Ident); isId && id.Name == recvName(fd) && call.Ellipsis == token.NoPos {
+						ok = true
+						for _, f := range fd.Type.Params.List {
+							for _, n := range f.Names {
+								params = append(params, n.Name)
+							}
+						}
+						for _, a := range call.Args {
+							args = append(args, s.src(a))
+						}
+					}
+				}
+			}
+		}
+	}
+	if !ok {
+		e.errors = append(e.errors, goName+": not a single `return recv."+callee+"(…)`")
+		params, args = []string{"MISSING"}, []string{"MISSING"}
+	}
+	e.stringList(lean+"Params", "parameter names of `"+goName+"` in "+rel, params)
+	e.stringList(lean+"Args", "arguments `"+goName+"` hands to `"+callee+"`, in order", args)
+}
+
+// c03Duration translates an expression of type time.Duration in ns: time.Second / time.Millisecond… are constants,
+// time.Duration(x) is a conversion, the rest is integer arithmetic (c03Expr)
+func c03Duration(e ast.Expr) (string, error) {
+	units := map[string]string{"Nanosecond": "1", "Microsecond": "1000", "Millisecond": "1000000", "Second": "1000000000"}
+	switch x := e.(type) {
+	case *ast.ParenExpr:
+		return c03Duration(x.X)
+	case *ast.SelectorExpr:
+		if id, ok := x.X.(*ast.Ident); ok && id.Name == "time" {
+			if u, ok := units[x.Sel.Name]; ok {
+				return u, nil
+			}
+		}
+	case *ast.CallExpr:
+		if sel, ok := x.Fun.(*ast.SelectorExpr); ok && len(x.Args) == 1 {
+			if id, ok := sel.X.(*ast.Ident); ok && id.Name == "time" && sel.Sel.Name == "Duration" {
+				return c03Duration(x.Args[0])
+			}
+		}
+	case *ast.BinaryExpr:
+		a, err := c03Duration(x.X)
+		if err != nil {
+			return "", err
+		}
+		b, err := c03Duration(x.Y)
+		if err != nil {
+			return "", err
+		}
+		switch x.Op {
+		case token.ADD, token.SUB, token.MUL:
+			return "(" + a + " " + x.Op.String() + " " + b + ")", nil
+		case token.QUO:
+			return "(Int.tdiv " + a + " " + b + ")", nil
+		}
+	}
+	return c03Expr("", e)
+}
+
+// c03RescueLimiter: the `rescueLimiter:` field of the literal NewTokenLimiter returns must be
+// xrate.NewLimiter(xrate.Every(<duration expression over rate>), <burst expression>): emits both as Lean functions
+func (e *emitter) c03RescueLimiter(s *source, rel string) {
+	fail := func(msg string) {
+		e.errors = append(e.errors, "NewTokenLimiter rescueLimiter: "+msg)
+		e.printf("def rescueEveryNs (rate burst : Int) : Int := 0\ndef rescueBurst (rate burst : Int) : Int := 0\n\n")
+	}
+	fd := s.findFunc(rel, "NewTokenLimiter")
+	if fd == nil {
+		fail("function not found")
+		return
+	}
+	var val ast.Expr
+	ast.Inspect(fd, func(n ast.Node) bool {
+		if kv, ok := n.(*ast.KeyValueExpr); ok {
+			if id, ok := kv.Key.(*ast.Ident); ok && id.Name == "rescueLimiter" {
+				val = kv.Value
+			}
+		}
+		return true
+	})
+	call, ok := val.(*ast.CallExpr)
+	if !ok || len(call.Args) != 2 || s.src(call.Fun) != "xrate.NewLimiter" {
+		fail("not xrate.NewLimiter(limit, burst)")
+		return
+	}
+	every, ok := call.Args[0].(*ast.CallExpr)
+	if !ok || len(every.Args) != 1 || s.src(every.Fun) != "xrate.Every" {
+		fail("the limit is not xrate.Every(interval)")
+		return
+	}
+	iv, err := c03Duration(every.Args[0])
+	if err != nil {
+		fail(err.Error())
+		return
+	}
+	b, err := c03Expr("", call.Args[1])
+	if err != nil {
+		fail(err.Error())
+		return
+	}
+	e.printf("/-- translated from NewTokenLimiter: the interval (ns) handed to xrate.Every for the rescue limiter -/\ndef rescueEveryNs (rate burst : Int) : Int := %s\n\n", iv)
+	e.printf("/-- translated from NewTokenLimiter: the burst handed to xrate.NewLimiter -/\ndef rescueBurst (rate burst : Int) : Int := %s\n\n", b)
+}
+
 func init() {
 	register("C03", func(s *source, e *emitter) {
 		const pf = "core/limit/periodlimit.go"
@@ -763,5 +882,14 @@ func init() {
 		e.detailDef(s, rf, "acceptable", "acceptableShape")
 		e.detailDef(s, rf, "Redis.Ping", "pingShape")
 		e.detailDef(s, rf, "Redis.PingCtx", "pingCtxShape")
+
+		// round 5
+		e.c03Forward(s, pf, "PeriodLimit.Take", "TakeCtx", "takeFwd")
+		e.c03Forward(s, tf, "TokenLimiter.Allow", "AllowN", "allowFwd")
+		e.c03Forward(s, tf, "TokenLimiter.AllowCtx", "AllowNCtx", "allowCtxFwd")
+		e.c03Forward(s, tf, "TokenLimiter.AllowN", "reserveN", "allowNFwd")
+		e.c03Forward(s, tf, "TokenLimiter.AllowNCtx", "reserveN", "allowNCtxFwd")
+		e.c03RescueLimiter(s, tf)
+		e.c03LuaToks("core/limit/tokenscript.lua", "tokenLuaToks")
 	})
 }
